@@ -33,12 +33,17 @@ func vhArtifacts(tag string, n int) map[string]HashObj {
 }
 
 func vhPattern(tag string) string { return vPick(tag, "*", "a", "d/*", "?", "b") }
-func vhPrefix(tag string) string  { return vPick(tag, "d", "e") }
+func vhPrefix(tag string) string {
+	if vhRuleMenu == 3 {
+		return vPick(tag, "", "d") // an explicitly empty prefix means "no prefix"
+	}
+	return vPick(tag, "d", "e")
+}
 func vhDstType(tag string) string { return vPick(tag, "MATERIALS", "PRODUCTS", "materials") }
 func vhDstName(tag string) string { return vPick(tag, "s", "o", "x") }
 
 // vhRule draws one rule; the rule kind is a case split, operands are symbolic.
-var vhRuleMenu int // 0: all 12 kinds; 1: reduced menu (ALLOW, REQUIRE, DISALLOW, malformed, MATCH with source prefix); 2: REQUIRE, DISALLOW, ALLOW
+var vhRuleMenu int // 0: all 12 kinds; 1: reduced menu (ALLOW, REQUIRE, DISALLOW, malformed, MATCH with source prefix); 2: REQUIRE, DISALLOW, ALLOW; 3: MATCH with a source or a destination prefix from {'', d}, DISALLOW
 
 func vhRule(tag string) []string {
 	k := 0
@@ -46,6 +51,8 @@ func vhRule(tag string) []string {
 		k = []int{0, 2, 1, 10, 7}[vChoice(tag+".kind", 5)]
 	} else if vhRuleMenu == 2 {
 		k = []int{2, 1, 0}[vChoice(tag+".kind", 3)]
+	} else if vhRuleMenu == 3 {
+		k = []int{7, 8, 1}[vChoice(tag+".kind", 3)]
 	} else {
 		k = vChoice(tag+".kind", 12)
 	}
